@@ -21,6 +21,10 @@ func (t *WeightedMerkleTrie) GetBlockProof(block uint64) (key, proof []byte, err
 		}
 		return nil, nil, err
 	}
+	if len(key)%2 != 0 {
+		// only a trie imported from a crafted export can hold a value at an odd depth
+		return nil, nil, ErrInvalidKey
+	}
 	key = hexToKeybytes(key)
 	proof, err = cbor.Marshal(persistTrie)
 	if err != nil {
